@@ -1224,7 +1224,7 @@ def run(chk):
                          "Python expressions into fresh containers / aliases / in-place writes, linearisation of branches and loops, constructor "
                          "and log-sink lists); C14_tie_ops_here_frame is about those programs",
                          "gendb.py / simreads.py generators; deep-snapshot code (dict order kept, sets sorted); PYTHONHASHSEED handling of CPython",
-                         "Frame.v programs are hand transcriptions of the Python operations (tie = snapshots, not a translator)"]
+                         "the programs written in Frame.v itself are hand transcriptions (documented reference); the regenerated ones are tied by translation, both are accompanied by the snapshot differential"]
     chk.assumptions = ["scores compared to 1e-6 abs + 1e-9 rel, everything else (names, variant lists, output files) exactly"]
     chk.build()
     quick = chk.tier == "quick"
